@@ -76,7 +76,7 @@ def rich_extremes(chk, rnd, n):
             col = df[name].dropna()
             if len(col) == 0:
                 continue
-            numeric = kind in ('int64', 'uint8', 'Int64', 'int_extreme', 'float64', 'float_special', 'Float64')
+            numeric = kind in ('int64', 'uint8', 'Int64', 'int_extreme', 'float64', 'float32', 'float_special', 'Float64')
             for key, agg in (('min', 'min'), ('max', 'max')):
                 if key not in fd:
                     if numeric:
